@@ -311,9 +311,20 @@ class Gen:
         ast = []
         used_pats = []
         for i, rid in enumerate(names):
-            ndefs = 2 if rng.random() < 0.15 else 1
-            for _ in range(ndefs):
-                ast.append(self.rule(rid, names[:i], lits, pats, temps, fe, ast))
+            t = rng.random()
+            ndefs = 3 if t < 0.06 else 2 if t < 0.25 else 1
+            first = None
+            for d in range(ndefs):
+                r = self.rule(rid, names[:i], lits, pats, temps, fe, ast)
+                if d > 0 and first is not None and rng.random() < 0.5:
+                    # an alternative of another length that shares a prefix / the constraints of the first definition
+                    k = rng.randint(0, len(first[1]))
+                    ext = [('pat', rng.choice(temps)) if rng.random() < 0.6 else ('lit', rng.choice(lits)) for _ in range(rng.randint(0, 2))]
+                    r = (rid, (first[1][:k] + ext + first[1][k:])[:5] or first[1], first[2] if rng.random() < 0.7 else r[2], [])
+                    r = (rid, r[1], [[(p, o) for (p, o) in cs if any(c == ('pat', p) for c in r[1]) or p[0] != '_'] for cs in r[2]], [])
+                    r = (rid, r[1], [cs for cs in r[2] if cs], [])
+                ast.append(r)
+                first = first or r
         # temporary rules
         for _ in range(rng.choice([0, 0, 1, 2])):
             ast.append(self.rule(rng.choice(TEMP_RULES), names, lits, pats, temps, fe, ast))
